@@ -1463,6 +1463,39 @@ func (h *history) oracle(id uint64, b *bodyT, w winInfo, cls int, vsBefore vset,
 	}
 }
 
+// oracleErrorProof: the agreed report is an error proof.  The remote call was NOT delivered: the only thing that
+// may follow is the one retry of the same action (one more on its retry counter, at most two retries, fees cleared),
+// never a second copy, never another action
+func (h *history) oracleErrorProof(id uint64, b *bodyT, cls int, sp []*bodyT) {
+	replay := map[string]any{"part": "B", "seed": h.run.Seed, "history": append([]string{}, h.log...)}
+	bad := ""
+	switch {
+	case len(sp) > 1:
+		bad = fmt.Sprintf("%d messages queued", len(sp))
+	case len(sp) == 1 && (b.Kind == kUpdateValset || b.Kind == kHandover):
+		bad = "a message queued for an action that is never retried"
+	case len(sp) == 1 && b.Retries >= 2:
+		bad = "retried beyond the limit"
+	case len(sp) == 1:
+		n := sp[0]
+		// the same action: every field of the kind, fees and relayer aside (the retry is assigned anew, its fees are set later)
+		x, y := *n, *b
+		x.Relayer, y.Relayer = "", ""
+		x.NoFees, y.NoFees = false, false
+		x.Fees, y.Fees = [3]uint64{}, [3]uint64{}
+		same := n.Retries == b.Retries+1 && x.coq() == y.coq()
+		if !same {
+			bad = "the queued message is not the retry of the failed action"
+		} else if (b.Kind == kSLC || b.Kind == kUploadUser) && !n.NoFees {
+			bad = "the retry keeps the fees of the failed attempt"
+		}
+	}
+	h.run.Count("B.error-proof", fmt.Sprintf("kind=%d retries=%d queued=%d", b.Kind, b.Retries, len(sp)))
+	if bad != "" {
+		h.run.Violate("C07:error-proof-follow-up", fmt.Sprintf("message %d (kind %d, retries %d): error proof agreed on, class %d: %s", id, b.Kind, b.Retries, cls, bad), replay)
+	}
+}
+
 // oracleUnagreed: attestRouter ran on one message for which 2/3 of the shares agree on no transaction
 // proof and no error proof: nothing may be concluded from the reports, the message must still be queued
 func (h *history) oracleUnagreed(id uint64, b *bodyT, w winInfo, cls int, stillQueued bool) {
@@ -1790,6 +1823,9 @@ func runHistory(t *testing.T, run *emit.Run, idx int) {
 			kind := []int{kSLC, kSLC, kUpdateValset, kUpdateValset, kUploadCompass, kHandover, kUploadUser}[r.Intn(7)]
 			b := p.body(kind)
 			b.Relayer = e.vals[r.Intn(len(e.vals))].eth.Hex()
+			if kind == kSLC || kind == kUploadUser || kind == kUploadCompass {
+				b.Retries = []uint32{0, 0, 0, 1, 2, 2}[r.Intn(6)] // a retry of an earlier attempt; 2 = the limit is reached
+			}
 			switch kind {
 			case kUpdateValset: // the valset to install: one of the stored snapshots (or, rarely, an unknown id)
 				sid := e.snaps[r.Intn(len(e.snaps))]
@@ -2091,6 +2127,9 @@ func runHistory(t *testing.T, run *emit.Run, idx int) {
 			}
 			h.oracle(m.id, b, w, cls, vs, eff, was)
 			h.oracleUnagreed(m.id, b, w, cls, h.ids()[m.id])
+			if w.kind == 2 {
+				h.oracleErrorProof(m.id, b, cls, sp)
+			}
 			e.checkSnapshot(t)
 			if w.kind == 1 && (cls == 1 || cls == 2) { // refused for good: count what the relayer's metrix record says (observation only:
 				// the record is not one of the success effects the property lists; the model follows the code and X compares it)
@@ -2466,8 +2505,16 @@ func TestCorr(t *testing.T) {
 		fmt.Sscan(v, &nB)
 	}
 	nA := run.N - nB
-	partA(t, run, nA)
+	if nB == 0 {
+		partA(t, run, nA)
+	}
+	// Part A cases and histories alternate, so that the shards of the cases file cost about the same
 	for i := 0; i < nB; i++ {
+		k := nA / nB
+		if i < nA%nB {
+			k++
+		}
+		partA(t, run, k)
 		if i%8 == 7 {
 			runTwin(t, run)
 			continue
